@@ -12,5 +12,9 @@ func init() {
 		c04.ChildMain(os.Args[2:])
 		os.Exit(0)
 	}
+	if len(os.Args) >= 2 && os.Args[1] == "C04-load" {
+		c04.LoadMain(os.Args[2:])
+		os.Exit(0)
+	}
 	props["C04"] = c04.P{}
 }
